@@ -24,7 +24,7 @@ RULE = (
     "evaluations = words/scenarios executed; distinct non-trivial = distinct words/scenarios (by construction for the enumerated parts) containing >= 1 failure."
 )
 ASSUMPTIONS = [
-    "the manager's wall clock (datetime.utcnow in han.meter_connection) is replaced by the virtual clock from the harness; a calibration scenario verifies that the substitution took effect, otherwise the breaker oracle is skipped (inconclusive)",
+    "the manager's wall clock (datetime.utcnow in han.meter_connection) is replaced by the virtual clock from the harness; the virtual clock starts at one of 6 epochs (DST switches, leap day, month and year ends) and failing attempts raise 9 different exception types in rotation; a calibration scenario verifies that the substitution took effect, otherwise the breaker oracle is skipped (inconclusive)",
     "slow attempts take 2.5 virtual seconds; 'failure time' is when the factory raised",
 ]
 WATCHDOG_S = {"quick": 900, "thorough": 7200}
@@ -137,7 +137,8 @@ def run_manager_scenario(word, lifetimes, cfg, ctx, shim=True):
         else:
             lts.append(None)
     horizon = 30 + sum(l or 0 for l in lts) + sum(min(2 ** i, cfg.get("max_delay", 60)) for i in range(len(word) + 3)) + 12 * len(word)
-    res = vloop.run_scenario(outcomes, lts, horizon=min(horizon, 2000), config=cfg, default_outcome="fail", use_clock_shim=shim, track_tasks=False)
+    epoch = vloop.EPOCHS[(len(word) * 7 + sum(word)) % len(vloop.EPOCHS)]
+    res = vloop.run_scenario(outcomes, lts, horizon=min(horizon, 2000), config=cfg, default_outcome="fail", use_clock_shim=shim, track_tasks=False, epoch=epoch)
     return res
 
 
